@@ -8,7 +8,7 @@ import codec as C
 import drive
 import p_filter as PF
 
-LEAN_TARGETS = ["Verif.Props.C15"]
+LEAN_TARGETS = ["Verif.Props.C15", "Verif.Props.Ties"]
 LEVEL = "proof"
 ASSUMPTIONS = [
     "text is a sequence of Unicode scalar values (no lone surrogates)",
